@@ -24,7 +24,9 @@ Exprs == {E(Bin("+", Lit(1), Bin("*", Lit(2), Lit(3)))),
 Strings == {Str(<< >>), Str(<<97>>), Str(<<97, 44, 98>>), Str(<<120, 59, 121>>), Str(<<112, 35, 113>>),
             Str(<<97, 32, 98>>), Str(<<115, 34, 104, 105, 34>>), Str(<<39, 113>>)}
 Syms == {E([o |-> "id", nm |-> "lbl0"]), E([o |-> "$"]), E(Bin("+", [o |-> "id", nm |-> "lbl0"], Lit(2))),
-         E([o |-> "id", nm |-> "K5"])}
+         E([o |-> "id", nm |-> "K5"]),
+         \* identifiers may contain `.` and `$` (grammar: [a-zA-Z$_.][a-zA-Z$_.0-9]*)
+         E([o |-> "id", nm |-> ".tbl"]), E([o |-> "id", nm |-> "$x"]), E([o |-> "id", nm |-> "lbl.end"])}
 
 Alphabet == Numbers \cup Exprs \cup Strings \cup Syms
 
